@@ -33,6 +33,7 @@ BY_LABELS = (
     'sync', 'terminate-in-sync', 'terminate-on-deleted-event',
     'configure-in-sync', 'configure-on-created-event',
     'tombstone-of-own-container', 'tombstone-of-older-generation',
+    'tombstone-of-earlier-incarnation',
     'tombstone-of-other-container', 'node-restart', 'cleanup',
 )
 
